@@ -26,7 +26,7 @@ DEFAULT_PROFILE = dict(
     subscript_whole_array_results=True, raise_=True, nested_calls=True,
     persistent_arrays=True, name_pool="plain", zero_trip=True, negative_consts=True,
     dead_code=True, cond_in_call_args=True, bare_power=True, ne_operator=True,
-    pow_of_pow=True, loop_bound_vars=True, fresh_names=False, lookups=False, complex_vars=False, assign_all_state=False, time_advance=True, force_phases=None, extra_kinds=(), zero_arg_calls=True, builtin_set=None, yield_uvec_only=False, matmul_only=False, yield_call_free=False, minmax_loop_counter=True, builtin_kwargs=True, uvfn_boost=False, kw_reverse=True, triangular=True, recall=True, int_reassign=True, acc_loops=True, guarded_partial=True, split_calls=True, dt_change=True, surfaces=True, loop_vars=None,
+    pow_of_pow=True, loop_bound_vars=True, fresh_names=False, lookups=False, complex_vars=False, assign_all_state=False, time_advance=True, force_phases=None, extra_kinds=(), zero_arg_calls=True, builtin_set=None, yield_uvec_only=False, matmul_only=False, yield_call_free=False, minmax_loop_counter=True, builtin_kwargs=True, uvfn_boost=False, kw_reverse=True, triangular=True, recall=True, int_reassign=True, acc_loops=True, guarded_partial=True, split_calls=True, dt_change=True, surfaces=True, loop_vars=None, float_int_consts=True,
     real_temps=None, uvec_temps=None, arr_temps=None, flag_temps=None, int_temps=None,
 )
 
@@ -200,6 +200,8 @@ class Gen:
             cands = [V(n) for n in self.names_of(INT)] + [V(lv) for lv in self.loop_env]
             return self.choice(cands)
         consts = REAL_CONSTS + (NEG_CONSTS if self.p["negative_consts"] else [])
+        if self.p["float_int_consts"]:
+            consts = consts + [2.0, 4.0, 3.0]     # equal to an integer constant, but of another type (printed differently)
         return C(self.choice(consts))
 
     def real_expr(self, depth):
